@@ -23,7 +23,7 @@ func NewCache() Cache {
 }
 
 func (c Cache) Get(fn string, args []object.Object) (object.Object, []byte, bool) {
-	if len(args) > MaxArgs {
+	if verifNoCache() || len(args) > MaxArgs {
 		return nil, nil, false
 	}
 	key := CacheKey{Fn: fn}
@@ -39,7 +39,7 @@ func (c Cache) Get(fn string, args []object.Object) (object.Object, []byte, bool
 }
 
 func (c Cache) Set(fn string, args []object.Object, result object.Object, output []byte) {
-	if len(args) > MaxArgs {
+	if verifNoCache() || len(args) > MaxArgs {
 		return
 	}
 	key := CacheKey{Fn: fn}
